@@ -14,7 +14,15 @@ import (
 // Rng is splitmix64: every random choice of a harness derives from VERIF_SEED through one of these.
 type Rng struct{ s uint64 }
 
-func NewRng(seed uint64) *Rng { return &Rng{s: seed*0x9E3779B97F4A7C15 + 0x1234567} }
+func NewRng(seed uint64) *Rng {
+	// scramble the seed first: with s = seed·γ + c the streams of seed k and k+d would be the same
+	// splitmix sequence shifted by d draws (different seeds must give unrelated streams).
+	z := seed + 0x6A09E667F3BCC909
+	z = (z ^ (z >> 32)) * 0xD6E8FEB86659FD93
+	z = (z ^ (z >> 32)) * 0xD6E8FEB86659FD93
+	z ^= z >> 32
+	return &Rng{s: z*0x9E3779B97F4A7C15 + 0x1234567}
+}
 func (r *Rng) U64() uint64 {
 	r.s += 0x9E3779B97F4A7C15
 	z := r.s
